@@ -1,6 +1,7 @@
 """Fact loading: run pvfacts over the translation units of /repo (and the instantiation drivers in
 /verif/inst), merge the per-unit JSON into one whole-program view and provide indices."""
 import glob
+import gzip
 import hashlib
 import json
 import os
@@ -52,7 +53,9 @@ def _tree_hash(repo):
             for f in fn:
                 files.append(os.path.join(dp, f))
     for f in sorted(files):
-        h.update(f.encode())
+        # (path relative to its root: an identical copy of the sources somewhere else shares the cache entry)
+        rel = os.path.relpath(f, repo) if f.startswith(repo + os.sep) else "verif:" + os.path.relpath(f, VERIF)
+        h.update(rel.encode())
         try:
             with open(f, "rb") as fh:
                 h.update(hashlib.sha256(fh.read()).digest())
@@ -60,16 +63,18 @@ def _tree_hash(repo):
             pass
     st = os.stat(TOOL)
     h.update(("%d:%d" % (st.st_size, int(st.st_mtime))).encode())
-    h.update(" ".join(flags(repo)).encode())
+    h.update(" ".join(flags(repo)).replace(repo, "@@REPO@@").encode())
+    h.update(b"cache-format-3")
     return h.hexdigest()[:24]
 
 
 def _extract_one(unit, outdir, repo):
-    out = os.path.join(outdir, re.sub(r"[^A-Za-z0-9_.]", "_", unit) + ".json")
+    relunit = os.path.relpath(unit, repo) if unit.startswith(repo + os.sep) else "verif_" + os.path.relpath(unit, VERIF)
+    out = os.path.join(outdir, re.sub(r"[^A-Za-z0-9_.]", "_", relunit) + ".json.gz")
     if os.path.exists(out) and os.path.getsize(out) > 0:
         return unit, out, 0.0, ""
     t0 = time.time()
-    tmp = out + ".tmp%d" % os.getpid()
+    tmp = out[:-3] + ".tmp%d" % os.getpid()
     cmd = [TOOL, "--root", repo + "/", "--root", VERIF + "/inst/", "-o", tmp, unit, "--"] + flags(repo)
     if unit.startswith(os.path.join(repo, "tests")) or unit.startswith(os.path.join(repo, "examples")):
         cmd += ["-I%s/tests" % repo, "-I%s/subprojects/cpp-httplib" % repo, "-I/usr/include/rapidjson"]
@@ -78,7 +83,15 @@ def _extract_one(unit, outdir, repo):
         if os.path.exists(tmp):
             os.unlink(tmp)
         return unit, None, time.time() - t0, p.stderr[-2000:]
-    os.replace(tmp, out)
+    # stored with the root of the analysed tree replaced by a placeholder (Program puts the current root back), so that the entry can be
+    # used for an identical tree in another place
+    with open(tmp) as fh:
+        txt = fh.read()
+    os.unlink(tmp)
+    tmpz = out + ".tmp%d" % os.getpid()
+    with gzip.open(tmpz, "wt", compresslevel=1) as fh:
+        fh.write(txt.replace(repo.rstrip("/") + "/", "@@REPO@@/"))
+    os.replace(tmpz, out)
     return unit, out, time.time() - t0, ""
 
 
@@ -229,7 +242,7 @@ class Func(object):
 
 
 class Program(object):
-    def __init__(self, paths):
+    def __init__(self, paths, repo=None):
         self.funcs = {}
         self.classes = {}
         self.class_list = []
@@ -237,9 +250,10 @@ class Program(object):
         self.units = []
         self.errors = 0
         seen_vars = set()
+        root = (repo or REPO).rstrip("/") + "/"
         for p in paths:
-            with open(p) as fh:
-                d = json.load(fh)
+            with (gzip.open(p, "rt") if p.endswith(".gz") else open(p)) as fh:
+                d = json.loads(fh.read().replace("@@REPO@@/", root))
             self.units.append(d.get("unit"))
             self.errors += d.get("errors", 0)
             for f in d["functions"]:
@@ -765,7 +779,7 @@ def load(tier="quick", repo=None, need_extra=False):
     paths = extract(units, repo)
     if need_extra or tier == "thorough":
         paths += extract(extra_units(repo), repo, tolerate=(os.path.join(repo, "tests"), os.path.join(repo, "examples")))
-    prog = Program(paths)
+    prog = Program(paths, repo)
     if prog.errors:
         raise AnalysisBroken("%d compile errors while parsing the units" % prog.errors)
     return prog
